@@ -100,10 +100,12 @@ CLAIMED = {
             "with a type reference); which of two simultaneous errors is reported is not compared.", "3/C08"),
     "C09": ("TLA+ requirement TypeGraph (reference sets, missing names, least-fixpoint inhabitation) and implementation-shaped model Graph "
             "(recursion DFS with per-protocol lookup table; types-list walk raising 1303) related by TLC; TLC enumerates all type graphs over a "
-            "body family; replay through Check / UsedUserTypes / Example / Validate under the mesh and star protocols in a crash-isolating driver",
+            "body family; replay through Check / UsedUserTypes / Example / Validate under the mesh and star protocols in a crash-isolating driver; Known.tla "
+            "(types handed down: closure of the given types against the library's take-over / allOf / check passes, two defect switches) with every configuration replayed",
             "Every graph over 2 (quick) / 3 and a 4-type deep family (thorough) user types gets the TLC verdict (accept / reject / missing with the "
             "missing names); Check must agree and name a missing type, UsedUserTypes must be the duplicate-free reference set of the root text, and on "
-            "accepted graphs Example and Validate must return (fatal stack overflows and hangs are pinned to the graph in flight). TLC checks that the "
+            "accepted graphs Example and Validate must return (fatal stack overflows and hangs are pinned to the graph in flight). For every third graph the root is given only the types its text names, for every third one every schema only "
+            "the ones its own text names; Known.tla decides all 13 824 (quick) / 663 552 (thorough) ways of giving three types to each other and the root. TLC checks that the "
             "implementation-shaped model agrees with the requirement under the mesh protocol; the two recorded deviations are attributed only where "
             "that model predicts them.",
             "Graphs beyond 4 types are not enumerated; uninhabited or dangling types the root cannot reach are unspecified; which of two "
